@@ -1,0 +1,79 @@
+//go:build verif
+
+// Contracts for /verif (build tag "verif"): //@ comment blocks and pure ghost functions only.
+package interpreter
+
+import (
+	"context"
+
+	"github.com/tetratelabs/wazero/api"
+	"github.com/tetratelabs/wazero/experimental"
+	"github.com/tetratelabs/wazero/internal/wasm"
+	"github.com/tetratelabs/wazero/internal/wasmdebug"
+)
+
+var (
+	_ context.Context
+	_ api.FunctionDefinition
+	_ experimental.FunctionListener
+	_ *wasm.ModuleInstance
+	_ wasmdebug.ErrorBuilder
+)
+
+func b2u(b bool) uint64 {
+	if b {
+		return 1
+	}
+	return 0
+}
+
+// aborts counts the Abort notifications delivered to function listeners.
+func aborts() int { return verif_ghost_int("aborts") }
+
+// listened(n): how many of the n outermost call frames (at entry) belong to a function with a
+// listener. An uninterpreted function; recoverOnCall's precondition states its defining recursion.
+func listened(n int) uint64 { return verif_uf_u64("listened", n) }
+
+func isSnapshot(v interface{}) bool { _, ok := v.(*snapshot); return ok }
+
+//@ prop C06 C20
+
+// Embedder / helper interfaces (assumed): they do not touch the call engine.
+//@ iface (l experimental.FunctionListener) Abort(ctx context.Context, mod api.Module, def api.FunctionDefinition, err error)
+//@   ensures aborts() == old(aborts()) + 1
+//@   modifies ghost("aborts")
+//@ iface (d api.FunctionDefinition) DebugName() string
+//@   modifies nothing
+//@ iface (d api.FunctionDefinition) ParamTypes() []api.ValueType
+//@   modifies nothing
+//@ iface (d api.FunctionDefinition) ResultTypes() []api.ValueType
+//@   modifies nothing
+//@ iface (b wasmdebug.ErrorBuilder) AddFrame(funcName string, paramTypes, resultTypes []api.ValueType, sources []string)
+//@   modifies nothing
+//@ iface (b wasmdebug.ErrorBuilder) FromRecovered(recovered interface{}) error
+//@   ensures r0 != nil
+//@   modifies nothing
+
+//@ func (f *function) definition() api.FunctionDefinition
+//@   trusted
+//@   modifies nothing
+
+// After a trap, exit or host panic the call engine is reusable (no stale frames or operands), the
+// caller gets a non-nil error, and every unwound frame whose function has a listener is notified
+// with exactly one Abort - for all stack depths.
+//@ func (ce *callEngine) recoverOnCall(ctx context.Context, m *wasm.ModuleInstance, v interface{}) (err error)
+//@   requires listened(0) == 0
+//@   requires forall n int :: 0 <= n && n < len(ce.frames) ==> listened(n+1) == listened(n) + b2u(ce.frames[n].f.parent.listener != nil)
+//@   ensures[reusable] len(ce.frames) == 0 && len(ce.stack) == 0
+//@   ensures[error] err != nil
+//@   ensures[one-abort-per-listened-frame] aborts() == old(aborts()) + int(listened(old(len(ce.frames))))
+//@   may-panic isSnapshot(v)
+//@   nosafety
+//@   loop 0 (i int, frameCount int, functionListeners []functionListenerInvocation)
+//@     invariant frameCount == old[int](len(ce.frames)) && 0 <= i && i <= frameCount && len(ce.frames) == frameCount - i
+//@     invariant verif_slice_at(ce.frames, old[[]*callFrame](ce.frames), 0)
+//@     invariant uint64(len(functionListeners)) + listened(frameCount-i) == listened(frameCount)
+//@     invariant aborts() == old[int](aborts())
+//@   loop 1 (functionListeners []functionListenerInvocation, rangeindex int)
+//@     invariant aborts() == old[int](aborts()) + rangeindex + 1
+//@     invariant uint64(len(functionListeners)) == listened(old[int](len(ce.frames)))
